@@ -155,6 +155,49 @@ class SkipOp(Exception):
     pass
 
 
+_SIMSTATIC = []
+
+
+def get_simstatic():
+    """A user-defined register-file memory following the library pattern
+    (exo.libs.memories.AMX_TILE): defined once per process, like a library
+    object, so its class-level allocator state lives across compilations."""
+    if not _SIMSTATIC:
+        ns = define(
+            "from exo.core.memory import StaticMemory\n"
+            "class SimStatic(StaticMemory):\n"
+            "    N = 2\n"
+            "    StaticMemory.init_state(N)\n"
+            "    reg = {}\n"
+            "    @classmethod\n"
+            "    def global_(cls):\n"
+            "        return 'static float simreg[2][8];'\n"
+            "    @classmethod\n"
+            "    def can_read(cls):\n"
+            "        return True\n"
+            "    @classmethod\n"
+            "    def write(cls, s, lhs, rhs):\n"
+            "        return f'{lhs} = {rhs};'\n"
+            "    @classmethod\n"
+            "    def reduce(cls, s, lhs, rhs):\n"
+            "        return f'{lhs} += {rhs};'\n"
+            "    @classmethod\n"
+            "    def alloc(cls, new_name, prim_type, shape, srcinfo):\n"
+            "        i = cls.find_free_chunk()\n"
+            "        cls.mark(i)\n"
+            "        cls.reg[new_name] = i\n"
+            "        return f'#define {new_name} simreg[{i}]'\n"
+            "    @classmethod\n"
+            "    def free(cls, new_name, prim_type, shape, srcinfo):\n"
+            "        i = cls.reg.pop(new_name)\n"
+            "        cls.unmark(i)\n"
+            "        return f'#undef {new_name}'\n",
+            tag="simstatic",
+        )
+        _SIMSTATIC.append(ns["SimStatic"])
+    return _SIMSTATIC[0]
+
+
 def json_path(p):
     return repr(p)
 
@@ -753,30 +796,7 @@ class Session:
     def setup(self):
         self.solver.install()
         lib = define(gen_prog.LIB_SRC, tag="lib")
-        extra = (
-            "class SimStatic(StaticMemory):\n"
-            "    N = 2\n"
-            "    StaticMemory.init_state(N)\n"
-            "    reg = {}\n"
-            "    @classmethod\n"
-            "    def global_(cls):\n"
-            "        return 'static float simreg[2][8];'\n"
-            "    @classmethod\n"
-            "    def can_read(cls):\n"
-            "        return True\n"
-            "    @classmethod\n"
-            "    def alloc(cls, new_name, prim_type, shape, srcinfo):\n"
-            "        i = cls.find_free_chunk()\n"
-            "        cls.mark(i)\n"
-            "        cls.reg[new_name] = i\n"
-            "        return f'#define {new_name} simreg[{i}]'\n"
-            "    @classmethod\n"
-            "    def free(cls, new_name, prim_type, shape, srcinfo):\n"
-            "        i = cls.reg.pop(new_name)\n"
-            "        cls.unmark(i)\n"
-            "        return f'#undef {new_name}'\n"
-        )
-        ns = define("from exo.core.memory import StaticMemory\n" + extra + self.data["src"], lib, tag="prog")
+        ns = define(self.data["src"], dict(lib, SimStatic=get_simstatic()), tag="prog")
         self.ns = ns
         from exo.API import Procedure
 
